@@ -282,12 +282,18 @@ declare("ZTwice", ["A ZP1", "B ZP1", "C []ZP1", "D *ZP1"], "plain")   # a type o
 declare("ZPtrs1", ["A *ZI8", "B *ZI8", "C []*ZStr", "D map[string]*ZStr", "E *ZU16"], "plain")
 declare("ZPtrs2", ["P *ZStr `json:\"p\"`", "Q **ZStr `json:\"q,omitempty\"`", "R *ZI", "S []*ZI"], "plain")
 declare("ZPtrs3", ["ZPtrs1", "X *ZU16", "Y *ZB", "Z *ZF"], "plain")
+# embedded structs whose tag has options but no (valid) name: still flattened
+declare("ZEO1", ["ZCInner `json:\",omitempty\"`", "K int"], "plain")
+declare("ZEO2", ["*ZCInner3 `json:\",omitzero\"`", "K2 string"], "plain")
+declare("ZEO3", ["ZCInner2 `json:\"a'b\"`", "ZCInner3 `json:\",\"`"], "conflict")
+# json.Number: a named string that encoding/json writes and reads as a number
+declare("ZNum", ["N json.Number", "P *json.Number `json:\"p,omitempty\"`", "L []json.Number", "M map[string]json.Number", "K int"], "plain")
 # byte arrays: encoding/json writes [N]uint8 as a JSON array of numbers (only byte SLICES become base64 strings)
 out.append("type ZSum [4]byte")
 declare("ZBytesArr", ["Sum [4]byte", "H [0]uint8", "P *[2]uint8 `json:\"p,omitempty\"`", "M map[string][3]uint8", "L [][2]byte", "N ZSum", "Q *ZSum"], "plain")
 
-src = ["// Code generated by tools/gen_zoo.py; DO NOT EDIT.", "", "package main", "", "import (", '\t"log/slog"', '\t"math/big"', '\t"reflect"', '\t"time"', ")", "",
-       "var _ = slog.LevelInfo", "var _ big.Int", "var _ time.Time", ""]
+src = ["// Code generated by tools/gen_zoo.py; DO NOT EDIT.", "", "package main", "", "import (", '\t"encoding/json"', '\t"log/slog"', '\t"math/big"', '\t"reflect"', '\t"time"', ")", "",
+       "var _ json.Number", "var _ = slog.LevelInfo", "var _ big.Int", "var _ time.Time", ""]
 src += out
 src.append("")
 src.append("type zooEntry struct {\n\tName string\n\tT    reflect.Type\n\tCat  string\n}")
@@ -297,7 +303,7 @@ for n, c in decls:
     src.append('\t{"%s", reflect.TypeFor[%s](), "%s"},' % (n, n, c))
 # non-struct roots
 for e, c in [("[]ZP1", "plain"), ("*ZP2", "plain"), ("map[string]ZP3", "plain"), ("[2]ZI8", "plain"), ("int8", "plain"), ("uint64", "plain"), ("*string", "plain"), ("any", "plain"), ("[]any", "plain"), ("map[string]any", "plain"),
-             ("ZStr", "plain"), ("*ZI8", "plain"), ("time.Time", "plain"), ("chan int", "unsupported"), ("map[int]int", "unsupported"), ("[]*ZR1", "recursive"), ("***int32", "plain"), ("[]float32", "plain"), ("[4]byte", "plain"), ("ZSum", "plain"), ("*[2]uint8", "plain"), ("map[string][1]byte", "plain")]:
+             ("ZStr", "plain"), ("*ZI8", "plain"), ("time.Time", "plain"), ("chan int", "unsupported"), ("map[int]int", "unsupported"), ("[]*ZR1", "recursive"), ("***int32", "plain"), ("[]float32", "plain"), ("[4]byte", "plain"), ("ZSum", "plain"), ("*[2]uint8", "plain"), ("map[string][1]byte", "plain"), ("json.Number", "plain"), ("[]*json.Number", "plain")]:
     src.append('\t{"%s", reflect.TypeFor[%s](), "%s"},' % (e, e, c))
 src.append("}")
 open(sys.argv[1], "w").write("\n".join(src) + "\n")
